@@ -60,6 +60,30 @@ def register(generators, gm):
             raise GenError("%s: expected a non-empty printable ASCII literal without spaces, found %r" % (what, body))
         return list(bs)
 
+    def fn_takes_over(why):
+        """A check of this translator that looks at the SHAPE of a body (or at how the imports are written) and reads no data
+        off it is not an alarm by itself: every function of the two files is TRANSLATED by tools/gen_fn_roff.py (`RoffFn`, which
+        compares the imports name by name) and proved equal to the hand model (Proofs/RoffGen.v; C15 names both generators).
+        The pin falls back on "RoffFn still translates the crate"; what the code does is then the business of those proofs."""
+        gm.takes_over("RoffFn", why)
+
+    def bright_by_evaluation(src, ansi, why):
+        """is_bright's list of bright variants is DATA (rf_bright_tab).  When the function is no longer the `if let` + `matches!`
+        text and RoffFn still translates the crate, the table is the graph of the function over Color::Ansi(<the 16 constants>),
+        computed by evaluating it (tools/rs_eval.py).  Sound whatever is computed: Proofs/RoffGen.v proves the translated
+        is_bright equal to the hand model over this table."""
+        fn_takes_over(why)
+        import rs_eval
+        order = sorted(ansi, key=lambda n: ansi[n])
+        try:
+            rows = rs_eval.graph(src, "is_bright", "anstyle::AnsiColor", gm.read("crates/anstyle/src/color.rs"), order, "lib.rs",
+                                 wrap=("anstyle::Color::Ansi",))
+        except rs_eval.EvalError as e:
+            raise GenError("%s (and the table cannot be computed from the function: %s)" % (why, e))
+        if any(t not in ("true", "false") for _v, t in rows):
+            raise GenError("is_bright: not a bool")
+        return [v for v, t in rows if t == "true"]
+
     def gen_roff():
         ansi = ansi_colors()
         bits = effect_bits()
@@ -136,13 +160,13 @@ def register(generators, gm):
                 raise GenError("lib.rs: control_requests::%s not found" % k)
         req = {k: ascii_lit(v, "control_requests::" + k) for k, v in consts.items()}
         if "useanstyle::{Ansi256Color,AnsiColor,Color,RgbColor,Style};" not in lq or "useroff::{bold,italic,Roff};" not in lq:
-            raise GenError("lib.rs: use lines not recognised")
+            fn_takes_over("lib.rs: use lines not recognised")
         if not re.search(r"forstyledinstyled_str::styled_stream\(styled_text\)\{set_color\(\(&styled\.style\.get_fg_color\(\),&styled\.style\.get_bg_color\(\)\),?&mutdoc,?\);"
                          r"set_effects_and_text\(&styled,&mutdoc\);\}", lq):
-            raise GenError("to_roff: loop body not recognised")
+            fn_takes_over("to_roff: loop body not recognised")
         if squash(gm.fn_body(ls, "set_color")) != ("add_color_to_roff(doc,control_requests::FOREGROUND,colors.0);"
                                                    "add_color_to_roff(doc,control_requests::BACKGROUND,colors.1);"):
-            raise GenError("set_color: body not recognised")
+            fn_takes_over("set_color: body not recognised")
         # add_color_to_roff: the literals of its four arms
         ac = squash(gm.fn_body(ls, "add_color_to_roff"))
         m = re.search(r'Some\(Color::Rgb\(c\)\)=>\{letname=rgb_name\(c\);doc\.control\(control_requests::CREATE_COLOR,vec!\[name\.as_str\(\),"([^"\\]*)",to_hex\(c\)\.as_str\(\)\],?\)'
@@ -192,18 +216,19 @@ def register(generators, gm):
         ib = squash(gm.fn_body(ls, "is_bright"))
         m = re.fullmatch(r"ifletColor::Ansi\(color\)=fg_color\{matches!\(color,((?:\|?AnsiColor::\w+)+)\)\}else\{false\}", ib)
         if not m:
-            raise GenError("is_bright: body not recognised")
-        bright = re.findall(r"AnsiColor::(\w+)", m.group(1))
+            bright = bright_by_evaluation(ls, ansi, "is_bright: body not recognised")
+        else:
+            bright = re.findall(r"AnsiColor::(\w+)", m.group(1))
         if any(b not in ansi for b in bright) or len(set(bright)) != len(bright):
             raise GenError("is_bright: unknown or duplicate variant in %r" % bright)
         if squash(gm.fn_body(ls, "has_bright_fg")) != "style.get_fg_color().as_ref().map(is_bright).unwrap_or(false)":
-            raise GenError("has_bright_fg: body not recognised")
+            fn_takes_over("has_bright_fg: body not recognised")
         # font selection chain (shape only; the algorithm is modelled by hand)
         se = squash(gm.fn_body(ls, "set_effects_and_text"))
         if not re.fullmatch(r"leteffects=styled\.style\.get_effects\(\);ifeffects\.contains\(anstyle::Effects::BOLD\)\|has_bright_fg\(&styled\.style\)"
                             r"\{doc\.text\(vec!\[bold\(styled\.text\)\]\);\}elseifeffects\.contains\(anstyle::Effects::ITALIC\)"
                             r"\{doc\.text\(vec!\[italic\(styled\.text\)\]\);\}else\{doc\.text\(vec!\[roff::roman\(styled\.text\)\]\);\}", se):
-            raise GenError("set_effects_and_text: if-chain not recognised")
+            fn_takes_over("set_effects_and_text: if-chain not recognised")
 
         order = sorted(ansi, key=lambda n: ansi[n])
         o = [gm.HEADER % (rel_l + ", " + rel_s) +
